@@ -255,7 +255,176 @@ def cases_post_init(rng, n):
     return out
 
 
+def _note_lines(rng, res, k=None):
+    lines, t = [], 0
+    for _ in range(k if k is not None else rng.choice([1, 1, 2, 4])):
+        t += rng.choice([0, 1, res, rng.randint(1, 300)])
+        for _ in range(rng.choice([1, 1, 2, 3])):
+            lines.append(f"  {t} = N {rng.choice([0, 1, 2, 3, 4, 4, 5, 6, 7])} {rng.choice([0, 0, 10, 96])}")
+    return lines
+
+
+def cases_note_lanes(rng, n):
+    """`Note.from_parsed_datas`; the enum look-up `cls(tuple)` is answered from a table of all 32 members (and refused otherwise)"""
+    import itertools
+    from chartparse.instrument import Note, NoteEvent
+    table = [f"() 2 {ser(Note)} {ser(t)} R {ser(Note(t))}" for t in itertools.product((0, 1), repeat=5)]
+    out = []
+    for _ in range(n):
+        datas = [NoteEvent.ParsedData.from_chart_line(l) for l in _note_lines(rng, 192, 1)]
+        if rng.random() < 0.1:
+            datas = []
+        out.append((request("noteFromParsedDatas", [Note, datas], table), show_result(Note.from_parsed_datas, datas), "noteFromParsedDatas"))
+    return out
+
+
+def cases_sustain(rng, n):
+    import chartparse.instrument as inst
+    from chartparse.instrument import NoteEvent, NoteTrackIndex
+    out = []
+    five = [f".is_5_note 1 {ser(m)} R {ser(m.is_5_note())}" for m in NoteTrackIndex if isinstance(m.value, int)]
+    for _ in range(n):
+        # _longest_sustain / _refined_sustain_tuple on ints and 5-tuples of optional lengths
+        tup = tuple(rng.choice([None, None, 0, 5, 5, 96, rng.randint(0, 10**6)]) for _ in range(5))
+        sus = rng.choice([tup, tup, rng.randint(0, 10**6), 0, True])
+        out.append((request("longestSustain", [sus], []), show_result(NoteEvent._longest_sustain, sus), "longestSustain"))
+        fn = getattr(inst._refined_sustain_tuple, "__wrapped__", inst._refined_sustain_tuple)
+        out.append((request("refinedSustainTuple", [tup], []), show_result(fn, tup), "refinedSustainTuple"))
+        # complex_sustain_from_parsed_datas: the refinement is an external call (recorded)
+        datas = [NoteEvent.ParsedData.from_chart_line(l) for l in _note_lines(rng, 192, 1)]
+        if rng.random() < 0.08:
+            datas = []
+        rec = Recorder()
+        raw = inst._refined_sustain_tuple
+
+        def wrapped(t, _raw=raw, _rec=rec):
+            r = _raw(t)
+            _rec.log.append(f"_refined_sustain_tuple 1 {ser(t)} R {ser(r)}")
+            return r
+        inst._refined_sustain_tuple = wrapped
+        try:
+            real = show_result(inst.complex_sustain_from_parsed_datas, datas)
+        finally:
+            inst._refined_sustain_tuple = raw
+        out.append((request("complexSustain", [datas], five + rec.log), real, "complexSustain"))
+    return out
+
+
+def cases_dispatch(rng, n):
+    import chartparse.track
+    from chartparse.instrument import NoteEvent, StarPowerEvent, TrackEvent
+    from chartparse.sync import AnchorEvent, BPMEvent, TimeSignatureEvent
+    out = []
+    pools = [(NoteEvent.ParsedData, StarPowerEvent.ParsedData, TrackEvent.ParsedData), (BPMEvent.ParsedData, TimeSignatureEvent.ParsedData, AnchorEvent.ParsedData)]
+    lines_pool = ["  0 = N 0 0", "  5 = N 7 10", "  5 = S 2 9", "  7 = E solo", "garbage", "  0 = B 120000", "  0 = TS 4", "  3 = TS 6 3", "  9 = A 55", "",
+                  "  8 = S 64 1", "  1 = N 8 0", "  2 = E a b"]
+    for _ in range(n):
+        types = list(rng.choice(pools))
+        if rng.random() < 0.3:
+            rng.shuffle(types)
+        if rng.random() < 0.1:
+            types = types[: rng.randint(0, 2)]
+        lines = [rng.choice(lines_pool) for _ in range(rng.choice([0, 1, 3, 6]))]
+        rec = Recorder()
+        with contextlib.ExitStack() as st:
+            for t in set(types):
+                st.enter_context(rec.patch(t, "from_chart_line", ".from_chart_line", lambda a, kw: [a[0], a[1]]))
+
+            def real_call():
+                m = chartparse.track.parse_data_from_chart_lines(tuple(types), list(lines))
+                return [(k, list(v)) for k, v in m._dict.items()]
+            real = show_result(real_call)
+        if rec.ok:
+            out.append((request("parseDataFromChartLines", [tuple(types), lines], rec.log), real, "parseDataFromChartLines"))
+    return out
+
+
+def cases_note_event(rng, n):
+    """`NoteEvent.from_parsed_data`: everything it calls is recorded; the dataclass constructor's entry is read off the built event"""
+    import chartparse.instrument as inst
+    from chartparse.instrument import Note, NoteEvent, StarPowerEvent
+    from chartparse.sync import BPMEvents
+    out = []
+    for _ in range(n):
+        be, res, tempo = _bpm_events(rng)
+        datas = [NoteEvent.ParsedData.from_chart_line(l) for l in _note_lines(rng, res, 1)]
+        sps = [StarPowerEvent(tick=x, timestamp=timedelta(0), sustain=rng.choice([0, 10, 500]), _proximal_bpm_event_index=0)
+               for x in sorted(rng.sample(range(0, 600), rng.choice([0, 0, 1, 2])))]
+        prev = None
+        if rng.random() < 0.6:
+            try:
+                prev = NoteEvent.from_parsed_data([NoteEvent.ParsedData.from_chart_line(f"  0 = N {rng.randint(0, 4)} 0")], None, sps, be)[0]
+            except Exception:  # noqa: BLE001
+                prev = None
+        pbi, spi = rng.choice([0, 0, 0, 1, len(be.events)]), rng.choice([0, 0, 1, len(sps)])
+        rec = Recorder()
+        raw_cs = inst.complex_sustain_from_parsed_datas
+
+        def cs(d, _raw=raw_cs, _rec=rec):
+            try:
+                r = _raw(d)
+            except Exception as ex:  # noqa: BLE001
+                _rec.log.append(f"complex_sustain_from_parsed_datas 1 {ser(d)} E {err_tok(ex)}")
+                raise
+            _rec.log.append(f"complex_sustain_from_parsed_datas 1 {ser(d)} R {ser(r)}")
+            return r
+        inst.complex_sustain_from_parsed_datas = cs
+        try:
+            with rec.patch(Note, "from_parsed_datas", "Note.from_parsed_datas", lambda a, kw: [a[1]]), \
+                    rec.patch(BPMEvents, "timestamp_at_tick", ".timestamp_at_tick(start_iteration_index=)", lambda a, kw: [a[0], a[1], kw["start_iteration_index"]]), \
+                    rec.patch(NoteEvent, "_compute_hopo_state", "NoteEvent._compute_hopo_state", lambda a, kw: list(a)), \
+                    rec.patch(NoteEvent, "_compute_star_power_data", "NoteEvent._compute_star_power_data(proximal_star_power_event_index=)",
+                              lambda a, kw: [a[0], a[1], kw["proximal_star_power_event_index"]]), \
+                    rec.patch(NoteEvent, "_longest_sustain", "._longest_sustain", lambda a, kw: [NoteEvent, a[0]]), \
+                    rec.patch(NoteEvent, "_end_tick", "._end_tick", lambda a, kw: [NoteEvent, a[0], a[1]]):
+                try:
+                    r = NoteEvent.from_parsed_data(datas, prev, sps, be, pbi, spi)
+                    real = "R " + ser(r)
+                    ev = r[0]
+                    ctor = [NoteEvent, ev.tick, ev.timestamp, ev.end_timestamp, ev.note, ev.hopo_state, ev.sustain, ev.star_power_data, ev._proximal_bpm_event_index]
+                    rec.log.append("()(tick=,timestamp=,end_timestamp=,note=,hopo_state=,sustain=,star_power_data=,_proximal_bpm_event_index=) 9 "
+                                   + " ".join(ser(x) for x in ctor) + " R " + ser(ev))
+                except Unserialisable:
+                    continue
+                except Exception as ex:  # noqa: BLE001
+                    real = "E " + err_tok(ex)
+        finally:
+            inst.complex_sustain_from_parsed_datas = raw_cs
+        if rec.ok:
+            out.append((request("noteFromParsedData", [NoteEvent, datas, prev, sps, be, pbi, spi], rec.log), real, "noteFromParsedData"))
+    return out
+
+
+def cases_last_end(rng, n):
+    from chartparse.instrument import InstrumentTrack
+    from .props import C05
+    out = []
+    for _ in range(n):
+        be, res, tempo = _bpm_events(rng)
+        lines = _note_lines(rng, res, rng.choice([0, 1, 3, 5]))
+        try:
+            from chartparse.instrument import Difficulty, Instrument
+            tr = InstrumentTrack.from_chart_lines(Instrument.GUITAR, Difficulty.EXPERT, lines, be)
+        except Exception:  # noqa: BLE001
+            continue
+        if tr is None:
+            continue
+        try:
+            req = request("lastNoteEndTimestamp", [tr], [])
+        except Unserialisable:
+            continue
+        out.append((req, show_result(lambda t: type(t).last_note_end_timestamp.func(t), tr), "lastNoteEndTimestamp"))
+    return out
+
+
 GENERATORS = {
+    "noteFromParsedDatas": cases_note_lanes,
+    "longestSustain": cases_sustain,
+    "refinedSustainTuple": cases_sustain,
+    "complexSustain": cases_sustain,
+    "parseDataFromChartLines": cases_dispatch,
+    "noteFromParsedData": cases_note_event,
+    "lastNoteEndTimestamp": cases_last_end,
     "computeStarPowerData": cases_star_power,
     "buildNoteEvents": cases_build_notes,
     "dataToEvents": cases_data_to_events,
@@ -273,7 +442,7 @@ def validate(ctx: fw.Ctx, out: fw.Outcome, names):
             continue
         done.add(g)
         try:
-            cases += [c for c in g(rng, ctx.n(120, 12_000)) if c[2] in names or g is cases_post_init]
+            cases += [c for c in g(rng, ctx.n(120, 12_000)) if c[2] in names]
         except Exception as ex:  # noqa: BLE001  (the function no longer takes this call form: no verdict from here)
             out.notes.append(f"imperative embedding: cases for {name} could not be built ({type(ex).__name__}: {str(ex)[:100]}); exploration ×4")
             ctx.intensify = True
